@@ -10,7 +10,7 @@ import re
 import z3
 
 from ..common import REPO, HarnessError
-from .interp import DB, NULL, Interner, Table, V, is_sym
+from .interp import DB, GLOBAL_S, NULL, Interner, Table, V, is_sym
 
 STATES = ['Pending', 'Ready', 'Creating', 'Running', 'Success', 'Failed', 'Error', 'Cancelled']
 TERMINAL = ['Success', 'Failed', 'Error', 'Cancelled']
@@ -27,9 +27,10 @@ class Sizes:
     def dom(self, name):
         return {
             'batch': [1], 'job': list(range(1, self.J + 1)), 'group': list(range(0, self.G)),
-            'update': list(range(1, self.U + 1)), 'inst': list(range(1, self.I + 1)),
-            'attempt': list(range(1, self.A + 1)), 'token': list(range(0, self.T)),
-            'ic': list(range(1, self.IC + 1)), 'res': list(range(1, self.R + 1)), 'user': [1], 'bp': [1],
+            'update': list(range(1, self.U + 1)), 'inst': [GLOBAL_S.code(f'inst{i}') for i in range(1, self.I + 1)],
+            'attempt': [GLOBAL_S.code(f'att{i}') for i in range(1, self.A + 1)], 'token': list(range(0, self.T)),
+            'ic': [GLOBAL_S.code(f'ic{i}') for i in range(1, self.IC + 1)], 'res': list(range(1, self.R + 1)),
+            'user': [GLOBAL_S.code('user1')], 'bp': [GLOBAL_S.code('bp1')],
             'date': list(range(1, self.D + 1)), 'one': [1],
         }[name]
 
@@ -48,8 +49,8 @@ SCHEMA = {
                                  ['n_ready_jobs', 'n_running_jobs', 'n_creating_jobs', 'ready_cores_mcpu',
                                   'running_cores_mcpu', 'n_cancelled_ready_jobs', 'n_cancelled_running_jobs',
                                   'n_cancelled_creating_jobs'], {}),
-    'batches': ([('id', 'batch')], ['state', 'n_jobs', 'token', 'deleted', 'time_completed'], {'user': 1, 'billing_project': 1}),
-    'job_groups': ([('batch_id', 'batch'), ('job_group_id', 'group')], ['update_id', 'state', 'n_jobs', 'time_completed'], {'user': 1}),
+    'batches': ([('id', 'batch')], ['state', 'n_jobs', 'token', 'deleted', 'time_completed', 'format_version'], {'user': 'user1', 'billing_project': 'bp1'}),
+    'job_groups': ([('batch_id', 'batch'), ('job_group_id', 'group')], ['update_id', 'state', 'n_jobs', 'time_completed'], {'user': 'user1'}),
     'job_group_self_and_ancestors': ([('batch_id', 'batch'), ('job_group_id', 'group'), ('ancestor_id', 'group')], ['level'], {}),
     'batch_updates': ([('batch_id', 'batch'), ('update_id', 'update')],
                       ['token', 'start_job_id', 'n_jobs', 'start_job_group_id', 'n_job_groups', 'committed', 'time_committed'], {}),
@@ -91,6 +92,9 @@ ENUM_COLS = {
 BOOL_COLS = {('jobs', 'always_run'), ('jobs', 'cancelled'), ('batch_updates', 'committed'), ('inst_colls', 'is_pool'),
              ('batches', 'deleted')}
 
+# columns added by migrations newer than the documentation file (estimated-current.sql is stale for them)
+EXTRA_COLS = {'jobs': ['n_max_attempts']}
+
 _doc = {}
 
 
@@ -119,6 +123,7 @@ def doc_schema():
                 elif re.fullmatch(r'-?\d+', tok):
                     defaults[c] = int(tok)
         pk = re.search(r'PRIMARY KEY \(([^)]*)\)', m.group(2))
+        cols += EXTRA_COLS.get(m.group(1), [])
         _doc[m.group(1)] = {'cols': cols, 'notnull': notnull, 'defaults': defaults,
                             'pk': [x.strip(' `') for x in pk.group(1).split(',')] if pk else []}
     if 'jobs' not in _doc:
@@ -128,7 +133,7 @@ def doc_schema():
 
 def make_db(sizes, interner=None):
     doc = doc_schema()
-    S = interner or Interner()
+    S = interner or GLOBAL_S
     for lst in (STATES, INST_STATES, BATCH_STATES, JG_STATES, REASONS):
         for s in lst:
             S.code(s)
@@ -143,6 +148,7 @@ def make_db(sizes, interner=None):
                 raise HarnessError(f'{name}.{c} is modelled but is not a column of the table')
         ignored = [c for c in d['cols'] if c not in cols and c not in consts and c not in [k for k, _ in keys]]
         t = Table(name, [k for k, _ in keys], [sizes.dom(dn) for _, dn in keys], cols + list(consts), ignored)
+        consts = {c: (S.code(v) if isinstance(v, str) else v) for c, v in consts.items()}
         t.consts = dict(consts)
         t.notnull = {c for c in cols if c in d['notnull']} | set(consts)
         t.defaults = {}
@@ -248,7 +254,8 @@ def dump(db, tables=None, model=None):
                 v = r.vals[c]
                 vv = evalv(model, v.v) if model is not None else v.v
                 nn = evalv(model, v.n) if model is not None else v.n
-                d[c] = None if nn is True else (db.S.name(vv) if (t.name, c) in ENUM_COLS else vv)
+                d[c] = None if nn is True else (db.S.name(vv) if isinstance(vv, int) else vv)
+            d = {k: (db.S.name(v) if isinstance(v, int) else v) for k, v in d.items()}
             rows.append(d)
         if rows:
             out[name] = rows
